@@ -6,7 +6,7 @@ from .report import Context, finalize
 from . import props
 
 
-def run_rules(prop, tier='quick', overlay=None, root=None, seed=0, quiet=True):
+def run_rules(prop, tier='quick', overlay=None, root=None, seed=0, quiet=True, related=True):
     """Build the index, run the property's rules; returns the Context (no evidence written)."""
     mod = props.load(prop)
     idx = Index(root=root, overlay=overlay)
@@ -21,6 +21,31 @@ def run_rules(prop, tier='quick', overlay=None, root=None, seed=0, quiet=True):
     except AnalysisError as e:
         r = ctx.rule('ENGINE', 'analysis could not be completed')
         r.undecided('<engine>', str(e))
+    if related:
+        from .related import RELATED
+        from .report import Rule
+        for other, prefixes in sorted(RELATED.get(prop, {}).items()):
+            try:
+                omod = props.load(other)
+            except ImportError:
+                continue
+            sub = Context(other, idx, tier=tier, seed=seed, quiet=True)
+            try:
+                omod.check(sub)
+            except AnalysisError as e:
+                r = ctx.rule('REL.%s.ENGINE' % other, 'related rules of %s could not be run' % other)
+                r.undecided('<engine>', str(e))
+                continue
+            for orule in sub.rules:
+                suffix = orule.id.split('.', 1)[1]
+                if not suffix.startswith(tuple(prefixes)):
+                    continue
+                nr = Rule(ctx, '%s.REL.%s' % (prop, orule.id), '[shared with %s] %s' % (other, orule.statement), orule.floor)
+                for o in orule.obligations:
+                    o.rule = nr.id
+                    nr.obligations.append(o)
+                nr.notes = list(orule.notes)
+                ctx.rules.append(nr)
     return ctx, mod
 
 
